@@ -68,19 +68,42 @@ func newCast(n int) *cast {
 	return c
 }
 
-// addAliases: V0^ / A0^ = upper-case hex of the same serialized key (same bytes, different map key string);
-// V0# / A0# = the uncompressed SEC1 encoding (0x04||X||Y) of the same public key (different bytes).
+// addAliases: other spellings of pool keys, usable as the peer-public-key PARAMETER of every node_manager method:
+//
+//	X^ = upper-case hex of the same serialized key (same bytes, different string);
+//	X~ = mixed-case hex (every second hex letter upper-case);
+//	X# = the uncompressed SEC1 encoding (0x04||X||Y) of the same public key (different bytes, same key).
 func (c *cast) addAliases() {
 	mk := func(base *actor, suffix, key string) {
+		if key == base.Key {
+			return
+		}
 		x := &actor{Name: base.Name + suffix, A: base.A, Key: key}
 		c.byName[x.Name] = x
 		c.byKey[key] = x
 		c.Alias = append(c.Alias, x)
 	}
-	for _, b := range []*actor{c.Vals[0], c.Apps[0]} {
+	for i, b := range []*actor{c.Vals[0], c.Apps[0], c.Vals[1], c.Apps[1]} {
 		mk(b, "^", strings.ToUpper(b.Key))
-		mk(b, "#", uncompressedHex(b.A.Pub))
+		if i < 2 {
+			mk(b, "~", mixedCase(b.Key))
+			mk(b, "#", uncompressedHex(b.A.Pub))
+		}
 	}
+}
+
+func mixedCase(s string) string {
+	out := []byte(s)
+	n := 0
+	for i, ch := range out {
+		if ch >= 'a' && ch <= 'f' {
+			if n%2 == 0 {
+				out[i] = ch - 'a' + 'A'
+			}
+			n++
+		}
+	}
+	return string(out)
 }
 
 func ser(f func(*common.ZeroCopySink)) []byte {
